@@ -2,7 +2,7 @@
 import re, json, os, sys
 sys.path.insert(0, os.path.dirname(os.path.abspath(__file__)))
 from asbuilt import ASBUILT
-from sections import STATUS, TREE, SEC4, SEC5, SEC6, SEC10
+from sections import STATUS, TREE, SEC4, SEC5, SEC6, SEC10, SEC7B
 p = '/verif/DESIGN.md'
 s = open(p).read()
 # strip earlier generated parts (idempotent)
@@ -48,6 +48,9 @@ def repl_section(s, title_re, text):
 s = repl_section(s, r'^## 4\. What the specification does not decide', SEC4)
 s = repl_section(s, r'^## 5\. Hooks', SEC5)
 s = repl_section(s, r'^## 6\. Known-findings protocol', SEC6)
+_m7 = re.search(r'^## 7\. How the specification keeps growing', s, flags=re.M)
+_n7 = s.find('\n---', _m7.start())
+s = s[:_n7].rstrip('\n') + '\n\n' + SEC7B.rstrip('\n') + '\n' + s[_n7:]
 # 9-11 before the appendix
 rows = []
 res = {}
